@@ -457,6 +457,15 @@ package cl
 //@   ensures count-is-spent-only-on-a-replacement: sr.count < old(sr.count) ==> seq[i] == sr.rep
 //@   ensures exhausted-count-replaces-nothing: old(sr.count) <= 0 ==> result0
 
+// mismatch: scanning from the left, the result is the index (in sequence-1)
+// of the first pair that differs; scanning from the end it is one plus the
+// index of the rightmost pair that differs. The pair compared in round i of the
+// from-end scan sits at index len(seq1) - i of the window.
+//@ func cl.(*Mismatch).Call
+//@   property C14
+//@   ensures from-end-position: (fromEnd && result0 != nil && 0 <= start1 && start1 < 1000000000 && 1 <= i && i <= len(seq1)) ==> as(result0, slip.Fixnum) == len(seq1) - i + 1 + start1
+//@   ensures from-start-position: (!fromEnd && result0 != nil && 0 <= start1 && start1 < 1000000000 && i < len(seq1)) ==> as(result0, slip.Fixnum) == i + start1
+
 // assoc / rassoc / member / adjoin: the two-argument test receives the item
 // first and the (keyed) element second.
 //@ func cl.(*Assoc).Call
